@@ -29,7 +29,8 @@ ONE_LETTER_DNA = {"A": "DA",
 ONE_LETTER_RNA = {"A": "A",
                   "C": "C",
                   "G": "G",
-                  "T": "U"}
+                  "T": "U",
+                  "U": "U"}
 
 ONE_LETTER_AA = {"G": "GLY",
                  "A": "ALA",
